@@ -452,6 +452,11 @@ class Caller(object):
                    geo.shortest_torus_path_length(a, b, W, H),
                    geo.shortest_mesh_path(a, b),
                    list(geo.concentric_hexagons(t.draw(4), (a[0], a[1])))]
+            ner_ = rig_module("rig.place_and_route.route.ner")
+            if hasattr(ner_, "memoized_concentric_hexagons"):
+                # (the router's memoised variant, for a radius or two)
+                out += [tuple(ner_.memoized_concentric_hexagons(t.draw(7)))
+                        for _ in range(1 + t.draw(2))]
             return "geometry", canon(out)
         if which == 1:
             mcmod = rig_module("rig.machine_control.machine_controller")
